@@ -19,6 +19,7 @@ import (
 	"encoding/binary"
 	"fmt"
 	"io"
+	"io/ioutil"
 	"log"
 	"sync"
 	"sync/atomic"
@@ -462,6 +463,18 @@ func (s *Writer) loadSnapshot(epoch uint64) (*Snapshot, error) {
 		return nil, err
 	}
 
+	if s.config.ValidateSnapshotCRC && data.Len() >= crcWidth {
+		// verify the checksum over the raw bytes before decoding anything:
+		// the decoder sizes its allocations from length fields in the file
+		err = verifySnapshotCRC(data, epoch)
+		if err != nil {
+			if closer != nil {
+				_ = closer.Close()
+			}
+			return nil, err
+		}
+	}
+
 	// wrap the reader so we never read the last 4 bytes (CRC)
 	dataReader := io.LimitReader(data.Reader(), int64(data.Len()-crcWidth))
 	var crcReader *countHashReader
@@ -523,6 +536,25 @@ func (s *Writer) loadSnapshot(epoch uint64) (*Snapshot, error) {
 	}
 
 	return snapshot, nil
+}
+
+// verifySnapshotCRC checks that the last 4 bytes of a snapshot file are the
+// CRC-32 of everything before them.
+func verifySnapshotCRC(data *segment.Data, epoch uint64) error {
+	crcReader := newCountHashReader(io.LimitReader(data.Reader(), int64(data.Len()-crcWidth)))
+	_, err := io.Copy(ioutil.Discard, crcReader)
+	if err != nil {
+		return fmt.Errorf("error reading snapshot %d: %w", epoch, err)
+	}
+	fileCRCBytes, err := data.Read(data.Len()-crcWidth, data.Len())
+	if err != nil {
+		return fmt.Errorf("error reading snapshot CRC: %w", err)
+	}
+	if crcReader.Sum32() != binary.BigEndian.Uint32(fileCRCBytes) {
+		return fmt.Errorf("CRC mismatch loading snapshot %d: computed: %08x file: %x",
+			epoch, crcReader.Sum32(), append([]byte(nil), fileCRCBytes...))
+	}
+	return nil
 }
 
 func (s *Writer) loadSegment(id uint64, plugin *SegmentPlugin) (*segmentWrapper, error) {
